@@ -5,11 +5,13 @@ CONSTANTS
   ExportScripts = FALSE
   EnableFaults = FALSE
   EnableRestart = FALSE
+  EnableDebugWrites = TRUE
   SrcVals = {0, 3, 255}
   Dts = {2}
 VIEW View
 CHECK_DEADLOCK FALSE
 INVARIANTS
+  WritesOnlyAtBoundaries
   DriverCallShape
   ReadsFirst
   PublishedIsEncodeOfFinal
